@@ -19,7 +19,7 @@ func init() {
 		Level: "exploration",
 		Rule: "tie-rich query (1-6) and target (1-40) sets of width 8-300: targets derived from queries by substitutions drawn from a small shared pool, duplicates, the same column masked by N in one target and by a compatible 2-fold code in another (equal distance, different completeness), equal completeness (file-order ties), all-N / all-gap / heavily ambiguous targets at first, middle and last file position; measures raw/snp/tn93; n in {plain,1,2,3,|T|,|T|+3}; d in {none, an occurring distance, between two, 0}; table on/off; threads {0,1,2,16}; " +
 			"distinct non-trivial = distinct (measure, n kind, d kind, tie pattern, undefined-target position, capacity-boundary replacement) tuples",
-		Assumptions: []string{"whether an undefined-distance target may fill spare capacity after all defined ones, and what is printed for it, is unspecified: only 'never displaces a defined one' is judged",
+		Assumptions: []string{"without -d, whether an undefined-distance target may fill spare capacity after all defined ones, and what is printed for it, is unspecified: only 'never displaces a defined one' is judged; with -d an undefined distance is not within D and must not be returned",
 			"tn93 order is checked with tolerance 1e-9*max(1,|d|); tie-break rules for tn93 only between targets with identical count tuples"},
 		MinNontriv: 60,
 		Cases: func(tier string) int {
@@ -409,6 +409,11 @@ func runC06(c *fw.Ctx, idx int) fw.Result {
 			}
 		}
 		res.Count("query_evaluations", 1)
+		if D != -1.0 && len(O) != len(Odef) {
+			// an undefined distance is not "within distance D"
+			res.Fail("undefined-within-max-dist", fmt.Sprintf("query %s: -d %v given, but a target whose distance to the query is undefined is returned: %v", qs[qi].ID, D, names(ts, O)), files, argv)
+			continue
+		}
 		if len(O) != len(Odef) {
 			res.Count("undefined_targets_returned_in_spare_capacity_or_alone", 1)
 		}
